@@ -32,7 +32,7 @@ fn delete_tables(path: &std::path::Path, names: &[&str]) -> anyhow::Result<Vec<S
 
 pub fn run(ctx: &mut Ctx) {
     let scratch = Scratch::new();
-    for case in ctx.cases(40, 6_000) {
+    for case in ctx.cases(300, 20_000) {
         let mut rng = ctx.rng(case);
         one(ctx, case, &mut rng, &scratch);
     }
